@@ -13,9 +13,16 @@ CFG = {
     "level_note": "Trusted: Lean kernel; the hand model BtcwVerif/Model/AddrLock.lean (checked by correspondence on the "
                   "explored histories only); scrypt/secretbox/sha512 modelled by 'distinct passphrases give distinct "
                   "digests' (passphrase ids compared by equality); Go GC: wiping is observed as 'every buffer still "
-                  "reachable from the Manager is zero/nil' through the hook. Open item: an EMPTY private passphrase "
-                  "(accepted by ChangePassphrase) makes the first Unlock(correct) of an unlocked manager fail (salt "
-                  "aliasing) - theorems carry the hypothesis, oracle key Unlock.empty-passphrase-salt-aliased.",
+                  "reachable from the Manager is zero/nil' through the hook. No open C05 finding on the current tree: F12 (an "
+                  "EMPTY private passphrase, accepted by ChangePassphrase, made the first Unlock(correct) of an unlocked "
+                  "manager fail through salt aliasing; oracle key Unlock.empty-passphrase-salt-aliased) is fixed in /repo "
+                  "aeb55de and F13 (OnCommit closure cached clear-text keys after a Lock; key "
+                  "OnCommit.cleartext-key-cached-after-lock) in /repo bb83ae8; the engine probes both variants (flags "
+                  "f12, f13) and C05_counterexample_F12 / _F13 state the defects for trees without the fixes. "
+                  "C05_unlock_wrong/_right_histories_partial keep the hypothesis 'f12 or no EMPTY passphrase in the "
+                  "history' (its first disjunct holds on the current tree); C05_unlock_right_histories_partial also "
+                  "keeps DouOK (derive-on-unlock entries belong to cached accounts) as a hypothesis, exercised by the "
+                  "differential run.",
     "lean_props": ["BtcwVerif.Props.C05"],
     "engines": ["addrmgr-lock"],
     "trusted_base": COMMON_TB + [
